@@ -69,7 +69,24 @@ struct Resolved {
     dropped: Vec<u64>,
 }
 
+/// The `iv=` word of a `producer` case: the worker's `cluster_metadata_refresh_interval`. `max` (Duration::MAX) and
+/// `half` (u64::MAX / 2 seconds) overflow `Instant`: they mean "never" (`deadline_after` saturates; before /repo 3ab1ad9
+/// it returned `Instant::now()`, the worker fetched back to back and never received a refresh request). The reference
+/// behaviour is the SAME for all of them: no periodic fetch falls inside a case.
+pub fn interval_of(word: &str) -> Option<Duration> {
+    match word {
+        "iv=600" => Some(Duration::from_secs(600)),
+        "iv=max" => Some(Duration::MAX),
+        "iv=half" => Some(Duration::from_secs(u64::MAX / 2)),
+        _ => None,
+    }
+}
+
 pub fn run_producer(body: &str, ctx: &mut Ctx) -> String {
+    run_producer_iv(Duration::from_secs(600), body, ctx)
+}
+
+pub fn run_producer_iv(refresh_interval: Duration, body: &str, ctx: &mut Ctx) -> String {
     let ops: Vec<&str> = body.split(';').filter(|o| !o.is_empty()).collect();
     if ops.iter().filter(|o| **o == "q").count() > 24 {
         return "bad-case".into();
@@ -79,7 +96,7 @@ pub fn run_producer(body: &str, ctx: &mut Ctx) -> String {
     let rt = runtime(2);
     rt.block_on(async {
         let cluster = MockCluster::start(shape.topology(), with_std_prepare(|_| vec![act_void()])).await;
-        let mut rig = match ProducerRig::spawn(cluster.addr(0), Duration::from_secs(600), Duration::from_secs(600)).await {
+        let mut rig = match ProducerRig::spawn(cluster.addr(0), refresh_interval, Duration::from_secs(600)).await {
             Ok(r) => r,
             Err(_) => return "e2e-skip producer-spawn-failed".to_owned(),
         };
@@ -274,6 +291,35 @@ pub fn generate(rng: &mut Rng, tier: Tier, emit: &mut dyn FnMut(String)) {
     for _ in 0..(if quick { 40 } else { 600 }) {
         let len = rng.range(2, 14) as usize;
         emit(random_case(rng, len, false));
+    }
+    // the refresh interval: 600 s above; here intervals that overflow `Instant` ("never"). Same reference behaviour:
+    // a worker that takes "overflow" for "now" fetches back to back and never picks a request up (oracle: `f=`, answers).
+    for iv in ["iv=max", "iv=half"] {
+        for c in [
+            "q;o;t;o;t",
+            "q;q;o;t;o;t",
+            "o;q;o;t;q;o;t",
+            "t;q;o;q;t;o;t",
+            "q;e;q;o;t;o;t",
+            "q;q;q;o;o;t;o;t",
+        ] {
+            emit(format!("producer {} {}", iv, c));
+        }
+    }
+    {
+        // exhaustive over {q, o, t} to depth 3 under Duration::MAX
+        for a in ["q", "o", "t"] {
+            for b in ["q", "o", "t"] {
+                for c in ["q", "o", "t"] {
+                    emit(format!("producer iv=max {};{};{};o;t;o;t", a, b, c));
+                }
+            }
+        }
+    }
+    for k in 0..(if quick { 16 } else { 200 }) {
+        let len = rng.range(2, 12) as usize;
+        let c = random_case(rng, len, false);
+        emit(c.replacen("producer ", if k % 2 == 0 { "producer iv=max " } else { "producer iv=half " }, 1));
     }
     for _ in 0..(if quick { 6 } else { 60 }) {
         let len = rng.range(3, 10) as usize;
